@@ -580,9 +580,25 @@ def check_worklist(ctx, out, dv, rule):
         if x[0] == "call" and re.search(r"Iterator>?::next$", x[1]) and len(x) > 3 and isinstance(x[3], int):
             hb = cfg.innermost_loop(x[3])
             break
+    loops = cfg.loops()
+    if hb is None:
+        # the block is a merged local (expanded pipeline): the per-block loop is the innermost loop around
+        # the detect call that is driven by an iterator over something other than the detectors
+        def drives_blocks(H):
+            for y in loops[H]:
+                tt = v.blocks[y]["term"]
+                if tt and tt["k"] == "call" and callee_matches(tt, r"Iterator>?::next$") and cfg.innermost_loop(y) == H:
+                    ty = (tt.get("arg_tys") or [""])[0] + " " + v.local_ty((util.op_place(tt["args"][0]) or {"l": 0})["l"])
+                    if "ValidatorDetector" not in ty:
+                        return True
+            return False
+        around = sorted((len(HB), H) for H, HB in loops.items() if dets[0][0] in HB)
+        for _, H in around:
+            if drives_blocks(H):
+                hb = H
+                break
     if hb is None:
         return None
-    loops = cfg.loops()
     for H, HB in loops.items():
         if H == hb or not (set(loops[hb]) < set(HB)):
             continue
@@ -591,6 +607,11 @@ def check_worklist(ctx, out, dv, rule):
         if not own and not between:
             hb = H
             break
+    if v.blocks[hb].get("lazy_inner"):
+        # the block comes out of a lazily pulled flat_map: the iteration is the enclosing loop
+        enc = sorted((len(HB), H) for H, HB in loops.items() if H != hb and set(loops[hb]) < set(HB))
+        if enc:
+            hb = enc[0][1]
     lblocks = set(loops[hb])
     if not all(bi in lblocks for bi, t in dets):
         return None
@@ -623,8 +644,11 @@ def check_worklist(ctx, out, dv, rule):
 
         def hook(w, bb, t, argv, env, answers=answers):
             nm = callee_name(t)
-            if bb in drivers and env.get(-4) is None:
-                env[-4] = CW.const(1)
+            if bb in drivers:
+                seen_d = env.get(-4, ("tuple", ()))[1]
+                if CW.const(bb) in seen_d:
+                    return "diverge"        # one block is analysed: the iteration is not advanced a second time
+                env[-4] = ("tuple", seen_d + (CW.const(bb),))
                 return CW.adt("std::option::Option", "Some", 1, [("0", CW.sym("BLOCK"))])
             if callee_matches(t, r"validators::ValidatorDetector::detect$"):
                 d0 = w.deref_val(env, argv[0]) if argv else CW.TOP
